@@ -121,7 +121,7 @@ func genTypes(t *rapid.T, p *Project, pf Profile) *typeCtx {
 			}
 			d.Consts = append(d.Consts, c)
 		}
-		if len(d.Consts) >= 3 && rapid.IntRange(0, 3).Draw(t, "dupValue") == 0 {
+		if len(d.Consts) >= 3 && rapid.IntRange(0, 2).Draw(t, "dupValue") == 0 {
 			// two names for one value (StatusOn = "on"; StatusEnabled = "on"): legal Go, and the enum still has that value once
 			d.Consts[1].Value = d.Consts[0].Value
 		}
